@@ -5,7 +5,7 @@ import ast
 
 from ..effects import Effects
 from ..interp import site_of
-from ..model import AnalysisError, norm_stmt, walk_no_nested
+from ..model import AnalysisError, norm_stmt, parent_map, walk_no_nested
 from ..report import Ctx
 from . import sector
 from .c05 import facts_to_obs
@@ -256,6 +256,74 @@ def memo_io_rule(ctx: Ctx, rule: str, floor_positive: bool = True) -> None:
                key=f'{f.qual}|memo-io')
 
 
+def _global_store_sites(fn, glob):
+    """(name, store node, guarded by a test of the same container) for stores into module-level containers."""
+    out = []
+    local = {a.arg for a in ast.walk(fn) if isinstance(a, ast.arg)} | \
+        {n.id for n in walk_no_nested(fn) if isinstance(n, ast.Name) and isinstance(n.ctx, ast.Store)}
+    pm = parent_map(fn)
+    for n in walk_no_nested(fn):
+        tgt, store = None, None
+        if isinstance(n, ast.Assign) and isinstance(n.targets[0], ast.Subscript) and isinstance(n.targets[0].value, ast.Name):
+            tgt, store = n.targets[0].value.id, n
+        elif isinstance(n, ast.AugAssign) and isinstance(n.target, ast.Subscript) and isinstance(n.target.value, ast.Name):
+            tgt, store = n.target.value.id, n
+        elif isinstance(n, ast.Call) and isinstance(n.func, ast.Attribute) and isinstance(n.func.value, ast.Name) \
+                and n.func.attr in ('append', 'extend', 'update', 'setdefault', 'add', 'insert', 'pop', 'clear', 'remove'):
+            tgt, store = n.func.value.id, n
+        if tgt is None or tgt not in glob or tgt in local:
+            continue
+        guarded = False
+        cur = store
+        while cur in pm:
+            par = pm[cur]
+            if isinstance(par, ast.If) and cur in par.body and any(
+                    isinstance(x, ast.Name) and x.id == tgt for x in ast.walk(par.test)):
+                guarded = True
+            cur = par
+        out.append((tgt, store, guarded))
+    return out
+
+
+def global_state_rule(ctx: Ctx, rule: str, entry_nodes, what: str) -> None:
+    """Nothing reachable from the entry functions writes a module-level container, except a memo whose key determines
+    the stored value (object identity or all of the inputs; a label, a shape or a rounded number is a projection)."""
+    from ..effects import _memo_key_gap, _guarded_lazy
+    m = ctx.model
+    E = effects(m)
+    roots = [E.by_node[n] for n in entry_nodes]
+    reach = E.reachable(roots)
+    n_sites = 0
+    for fi in sorted(reach, key=lambda f: f.qual):
+        # module-level names bound to a mutable container in the function's own module
+        glob = {k for k, v in fi.mi.assigns.items()
+                if isinstance(v, (ast.Dict, ast.List, ast.Set)) or
+                (isinstance(v, ast.Call) and ast.unparse(v.func) in ('dict', 'list', 'set', 'defaultdict', 'OrderedDict',
+                                                                     'collections.defaultdict', 'collections.OrderedDict'))}
+        if not glob:
+            continue
+        for tgt, store, guarded in _global_store_sites(fi.fn, glob):
+            n_sites += 1
+            gap = None
+            if guarded and isinstance(store, ast.Assign):
+                gap = _memo_key_gap(store, fi.fn, include_self=fi.ci is not None)
+            ok = guarded and isinstance(store, ast.Assign) and gap is None
+            ctx.ob(rule, f'{fi.mi.relpath}:{store.lineno}', f'{fi.qual}: module-level `{tgt}` written while {what} only as a memo '
+                                                            f'whose key determines the value', ok,
+                   (f'{norm_stmt(store)}: ' + (gap or 'a module-level container is modified on this path: the result of a later '
+                                                      'call depends on the calls made before, by this or any other object')),
+                   key=f'{fi.qual}|global[{tgt}]')
+    ctx.extra.setdefault('global_state_sites', {})[rule] = n_sites
+    # the expected count on a clean tree is zero: keep a positive example that must be recognised on every run
+    demo = ast.parse("def f(self, k):\n    if k.label not in CACHE:\n        CACHE[k.label] = self.make(k)\n    return CACHE[k.label]\n"
+                     "def g(x):\n    LOG.append(x)\n").body
+    s1 = _global_store_sites(demo[0], {'CACHE', 'LOG'})
+    s2 = _global_store_sites(demo[1], {'CACHE', 'LOG'})
+    from ..effects import _memo_key_gap as _gap
+    if not (len(s1) == 1 and s1[0][2] is True and _gap(s1[0][1], demo[0], include_self=True) and len(s2) == 1 and s2[0][2] is False):
+        raise AnalysisError(rule, 'pqv/rules/c06.py', 'positive control of the module-level state rule failed')
+
+
 def class_mutable_rule(ctx: Ctx, rule: str, class_names) -> None:
     """A mutable container defined at class level is shared by all instances: a method may mutate it in place only
     if every constructor rebinds it on the instance first."""
@@ -395,6 +463,10 @@ def run(ctx: Ctx) -> None:
     ctx.extra['cached_functions'] = [f.qual for f in cached]
     with ctx.part():
         cache_key_rule(ctx, 'R06.2')
+
+    # module-level state (class-level state is covered by the self writes above)
+    with ctx.part():
+        global_state_rule(ctx, 'R06.3', [c.methods['decode'] for c in decs], 'a syndrome is decoded')
 
     # R06.4
     facts = [f for f in sector.analyse(m, only=('BeliefPropagationOSDDecoder',)) if f.tag == 'typestate']
